@@ -240,7 +240,7 @@ def eval_case(case, scales_list, want_detail=False):
     except Exception as e:  # a well-posed Hermitian problem must be answered
         res["failures"].append(dict(
             what="block_diagonalize raised %s on a well-posed Hermitian input" % type(e).__name__,
-            input=dict(kind="exception", case=case, scales=scales_list),
+            input=dict(kind="exception", case=case, scales=scales_list), exc=type(e).__name__,
             detail=traceback.format_exc()[-1500:]))
         return res
     Ht = r["out"]["H_tilde"]
@@ -332,6 +332,27 @@ def selftest():
 
 def h0_is_zero(case):
     return gq.is_zero(gq.dec(case["H"][gen.key((0,) * case["nparam"])]))
+
+
+def d13_input(case):
+    """Input predicate of finding D13: SymPy input and a block selected for full diagonalisation (tuple, default
+    or mask form) whose unperturbed block is identically zero (all its energies are 0)."""
+    if case["fmt"] != "sympy":
+        return False
+    sub = case["sub"]
+    nb = max(sub) + 1
+    f = case["fully"]
+    if f is None:
+        blocks = [0] if nb == 1 else []
+    elif isinstance(f, list):
+        blocks = list(f)
+    else:
+        blocks = [int(b) for b in f]
+    E0 = gq.dec(case["H"][gen.key((0,) * case["nparam"])])
+    for b in blocks:
+        if all(E0[i][i].is_zero() for i in range(len(sub)) if sub[i] == b):
+            return True
+    return False
 
 
 def has_partial_mask(case):
